@@ -143,3 +143,557 @@ def closure_ret(prog, b, expr, idx=None):
         cb = prog.closure_body(b, c[1])
         out.append((cb, [render(cb.site_expr(s)) for s in ret_sites(cb)]))
     return out
+
+
+# =============================================================================================== name-free program view
+# Rules must not depend on the names of locals, parameters, closure captures or on whether a trivial helper was
+# extracted / inlined.  `canon(prog)` returns a Program whose bodies
+#   * print parameters by position (`#2`; the receiver stays `self`), expand every single-definition local to its
+#     initialiser (named or not), print the remaining (multi-definition) locals by type (`%usize`),
+#   * print closure captures by capture index (`^0`),
+#   * replace calls of *trivial* crate-local helpers (no branch, at most one call, single result: accessors, predicates
+#     like `is_full()`, one-line constructors) by the helper's result expression with the actual arguments substituted.
+# All engine helpers (render, switch_info, lib.*) then work on the normalised expressions.
+from . import facts as _facts
+
+
+def emap(e, f):
+    """Rebuild expression e bottom-up, applying f to every rebuilt node."""
+    t = e[0]
+    if t == "call":
+        e2 = ("call", e[1], tuple(emap(a, f) for a in e[2]), e[3])
+    elif t == "bin":
+        e2 = ("bin", e[1], emap(e[2], f), emap(e[3], f))
+    elif t == "un":
+        e2 = ("un", e[1], emap(e[2], f))
+    elif t == "cast":
+        e2 = ("cast", emap(e[1], f), e[2])
+    elif t == "discr":
+        e2 = ("discr", emap(e[1], f))
+    elif t == "field":
+        e2 = ("field", emap(e[1], f), e[2], e[3])
+    elif t == "downcast":
+        e2 = ("downcast", emap(e[1], f), e[2])
+    elif t == "cindex":
+        e2 = ("cindex", emap(e[1], f), e[2], e[3])
+    elif t == "index":
+        e2 = ("index", emap(e[1], f), emap(e[2], f))
+    elif t == "agg":
+        e2 = ("agg", e[1], e[2], e[3], tuple((n, emap(x, f)) for n, x in e[4]))
+    elif t == "closure":
+        e2 = ("closure", e[1], tuple(emap(x, f) for x in e[2]))
+    elif t == "phi":
+        e2 = ("phi", e[1], tuple(emap(x, f) for x in e[2]))
+    else:
+        e2 = e
+    return f(e2)
+
+
+def _short_ty(t):
+    t = strip_generics(t or "?")
+    return t.replace(" ", "")
+
+
+class KBody(mir.Body):
+    def __init__(self, prog, crate, raw):
+        super().__init__(prog, crate, raw)
+        self.src_names = dict(self.names)
+        names = {}
+        for l in range(1, self.argc + 1):
+            names[l] = "self" if (l == 1 and self.src_names.get(1) == "self") else "#%d" % l
+        d = self.defs
+        for l in range(self.argc + 1, len(self.locals)):
+            whole = d.get(l, [])
+            if len(whole) != 1 or d.get((l, "partial")):
+                if whole or d.get((l, "partial")):
+                    names[l] = "%" + _short_ty(self.locals[l] if isinstance(self.locals[l], str) else str(self.locals[l]))
+        # locals that are themselves immutable references (`ref mut p`, `let e = map.get_mut(..)`): written *through*, never
+        # re-assigned -> printed as their initialiser
+        self._ref_like = set()
+        for l in range(self.argc + 1, len(self.locals)):
+            parts = d.get((l, "partial"))
+            if parts and len(d.get(l, [])) == 1 and all(x[0] in ("stmt", "call") and x[4].get("pr") and x[4]["pr"][0]["k"] == "deref" for x in parts):
+                self._ref_like.add(l)
+                names.pop(l, None)
+        self.names = names
+        self._expr_cache = {}
+        self._summary = None
+        self._summary_done = False
+
+    def local_expr(self, l, depth=0, stack=()):
+        if l in self._ref_like and l not in stack and depth <= 24:
+            key = ("ref", l)
+            if key in self._expr_cache:
+                return self._expr_cache[key]
+            dd = self.defs[l][0]
+            st = stack + (l,)
+            e = self.rvalue_expr(dd[3], depth + 1, st) if dd[0] == "stmt" else self.call_expr(dd[3], dd[1], depth + 1, st)
+            self._expr_cache[key] = e
+            return e
+        return super().local_expr(l, depth, stack)
+
+    # captures by index, everything else as in mir.Body.place_expr
+    def place_expr(self, p, depth=0, stack=()):
+        base = self.local_expr(p["l"], depth, stack)
+        for pr in p.get("pr", ()):
+            k = pr["k"]
+            if k == "deref":
+                continue
+            if k == "field":
+                n = pr["n"]
+                if n.startswith("upvar"):
+                    base = ("upvar", str(pr.get("i", n.split(":", 1)[-1])))
+                elif base[0] == "agg" and base[1] in ("adt", "tuple"):
+                    hit = None
+                    for fname, fe in base[4]:
+                        if fname == n:
+                            hit = fe
+                    base = hit if hit is not None else ("field", base, n, pr.get("o"))
+                else:
+                    base = ("field", base, n, pr.get("o"))
+            elif k == "downcast":
+                base = ("downcast", base, pr["v"])
+            elif k == "index":
+                base = ("index", base, self.local_expr(pr["l"], depth + 1, stack))
+            elif k == "cindex":
+                base = ("cindex", base, pr["o"], pr["fe"])
+            elif k == "subslice":
+                base = ("field", base, "[%d..%s%d]" % (pr["from"], "-" if pr["fe"] else "", pr["to"]), None)
+        return base
+
+    def summary(self):
+        """Result expression of a trivial helper in terms of its parameters, else None."""
+        if self._summary_done:
+            return self._summary
+        self._summary_done = True
+        if self.kind not in ("fn", "method"):
+            return None
+        if self.mut_borrowed:
+            return None                     # a local is handed out as `&mut` (out-parameter style): not a pure expression
+        ncalls = 0
+        for bi in self.live:
+            t = self.blocks[bi]["term"]
+            if not t:
+                continue
+            if t["k"] in ("switch", "yield"):
+                return None
+            if t["k"] == "call":
+                ncalls += 1
+            if t["k"] == "assert" and not t["msg"].startswith("overflow"):
+                return None
+        if ncalls > 1 or len(self.return_blocks()) != 1:
+            return None
+        ds = self.defs.get(0, [])
+        if len(ds) != 1 or self.defs.get((0, "partial")):
+            return None
+        self.prog._noinline += 1
+        try:
+            saved = self._expr_cache
+            self._expr_cache = {}
+            d = ds[0]
+            e = self.rvalue_expr(d[3]) if d[0] == "stmt" else mir.Body.call_expr(self, d[3], d[1])
+            self._expr_cache = saved
+        finally:
+            self.prog._noinline -= 1
+        for x in mir.walk(e):
+            if x[0] in ("local", "upvar", "unknown", "closure", "phi"):
+                return None
+        self._summary = e
+        return e
+
+    def call_expr(self, t, bb, depth=0, stack=()):
+        e = super().call_expr(t, bb, depth, stack)
+        if self.prog._noinline:
+            return e
+        nm = strip_generics(e[1])
+        if nm.endswith("Clone>::clone"):
+            return e                        # keep derived clones as calls (shorter, and `clone(x)` is what rules speak about)
+        callee = self.prog.by_npath(self.crate).get(nm)
+        if callee is None or callee is self:
+            return e
+        s = callee.summary()
+        if s is None:
+            return e
+        args = e[2]
+
+        def sub(x):
+            if x[0] == "arg":
+                return args[x[1] - 1] if 0 < x[1] <= len(args) else ("unknown", "?arg")
+            if x[0] == "call":
+                return ("call", x[1], x[2], bb)
+            if x[0] == "field" and x[1][0] == "agg" and x[1][1] in ("adt", "tuple"):
+                for fname, fe in x[1][4]:
+                    if fname == x[2]:
+                        return fe
+            return x
+        return emap(s, sub)
+
+
+class KProgram(mir.Program):
+    def __init__(self, fact_paths):
+        super().__init__(fact_paths)
+        self._noinline = 0
+        self._by = {}
+
+    def crate(self, name):
+        if name not in self._crates:
+            if name not in self.fact_paths:
+                raise mir.RuleError("no facts for crate %s" % name)
+            raw = _facts.load_crate(self.fact_paths[name])
+            bodies = [KBody(self, name, b) for b in raw["bodies"]]
+            self._crates[name] = (raw, bodies)
+        return self._crates[name]
+
+    def by_npath(self, crate):
+        if crate not in self._by:
+            seen, dup = {}, set()
+            for b in self.bodies(crate):
+                if b.npath in seen:
+                    dup.add(b.npath)
+                seen[b.npath] = b
+            for p in dup:
+                seen.pop(p, None)
+            self._by[crate] = seen
+        return self._by[crate]
+
+
+def canon(ctx):
+    """Switch the check context to the name-free program view (idempotent)."""
+    if not isinstance(ctx.prog, KProgram):
+        ctx.prog = KProgram(ctx.prog.fact_paths)
+    return ctx.prog
+
+
+# ------------------------------------------------------------------------------------------------ fields by role
+def fld(prog, adt_pat, ty_pat, crate=K):
+    """Name of the unique field of the ADT whose type matches ty_pat (private fields are identified by their type, so a
+    consistent rename is not an alarm).  Fails closed when the role is ambiguous."""
+    a = prog.adt(crate, adt_pat)
+    hits = [f["n"] for v in a["variants"] for f in v["fields"] if re.search(ty_pat, f["ty"])]
+    if len(hits) != 1:
+        raise mir.RuleError("field of %s with type /%s/: %d candidates %s" % (adt_pat, ty_pat, len(hits), hits))
+    return hits[0]
+
+
+# ------------------------------------------------------------------------------------------------ comparisons
+FLIP = {"Lt": "Gt", "Le": "Ge", "Gt": "Lt", "Ge": "Le", "Eq": "Eq", "Ne": "Ne"}
+NEG = {"Lt": "Ge", "Le": "Gt", "Gt": "Le", "Ge": "Lt", "Eq": "Ne", "Ne": "Eq"}
+_CMPFN = re.compile(r"(?:PartialOrd>?|PartialEq>?|cmp::impls|Ord>?)::(lt|le|gt|ge|eq|ne)$")
+
+
+def as_cmp(e):
+    """(op, a, b) for `a op b` written as a MIR comparison or as a PartialOrd/PartialEq method call, looking through Not."""
+    neg = False
+    while e[0] == "un" and e[1] == "Not":
+        neg = not neg
+        e = e[2]
+    op = None
+    if e[0] == "bin" and e[1] in FLIP:
+        op, a, b = e[1], e[2], e[3]
+    elif e[0] == "call" and len(e[2]) == 2:
+        m = _CMPFN.search(strip_generics(e[1]))
+        if m:
+            op, a, b = m.group(1).capitalize(), e[2][0], e[2][1]
+    if op is None:
+        return None
+    return (NEG[op] if neg else op, a, b)
+
+
+def cmp_norm(e, a_pat, b_pat):
+    """Relation `A op B` stated by expression e with A matching a_pat and B matching b_pat (operands may be written in
+    either order); None if e is not such a comparison."""
+    c = as_cmp(e)
+    if not c:
+        return None
+    op, x, y = c
+    rx, ry = render(x), render(y)
+    if re.search(a_pat, rx) and re.search(b_pat, ry):
+        return op
+    if re.search(a_pat, ry) and re.search(b_pat, rx):
+        return FLIP[op]
+    return None
+
+
+IMPLIES = {"<": {"Lt"}, "<=": {"Lt", "Le", "Eq"}, ">": {"Gt"}, ">=": {"Gt", "Ge", "Eq"}, "==": {"Eq"}, "!=": {"Ne", "Lt", "Gt"}}
+
+
+def rel_edges(b, a_pat, b_pat, want):
+    """CFG edges on which the relation `A <want> B` is known to hold (want in <,<=,>,>=,==,!=): the true edge of a
+    comparison that implies it or the false edge of one whose negation implies it; operand order and operator mirroring
+    are normalised, PartialOrd/PartialEq method calls and `!` are looked through."""
+    out = set()
+    for bi in b.live:
+        info = b.switch_info(bi)
+        if not info:
+            continue
+        op = cmp_norm(info[0], a_pat, b_pat)
+        if op is None:
+            continue
+        for t, ls in info[1].items():
+            if ls == {"true"} and op in IMPLIES[want]:
+                out.add((bi, t))
+            elif ls == {"false"} and NEG[op] in IMPLIES[want]:
+                out.add((bi, t))
+    return out
+
+
+def all_rel_edges(b, a_pat, b_pat):
+    """every edge of every comparison between A and B (for 'no such test dominates' style rules)"""
+    out = set()
+    for bi in b.live:
+        info = b.switch_info(bi)
+        if info and cmp_norm(info[0], a_pat, b_pat) is not None:
+            out |= {(bi, t) for t in info[1]}
+    return out
+
+
+def hoisted(b, edges, start=0):
+    """close guard edges under bool hoisting (engine: Body.derive_edges) when available"""
+    if hasattr(b, "derive_edges"):
+        return b.derive_edges(set(edges), None, start)
+    return set(edges)
+
+
+def passes(b, site_bb, edges, start=0):
+    edges = hoisted(b, edges, start)
+    return bool(edges) and b.must_pass_edges(site_bb, edges, start)
+
+
+def limit(ctx, rule, instance, site, count_pat, limit_pat, desc, unit_increment=False, start=0):
+    """growth site reachable only where count < limit (strict; `!=` accepted with unit increments from below)."""
+    b = site.body
+    ctx.bodies.add(b.npath)
+    good = rel_edges(b, count_pat, limit_pat, "<")
+    if unit_increment:
+        good |= rel_edges(b, count_pat, limit_pat, "!=")
+    ok = passes(b, site.bb, good, start)
+    msg = ("bounded: " if ok else "not bounded: ") + desc
+    if not ok:
+        weak = rel_edges(b, count_pat, limit_pat, "<=")
+        if passes(b, site.bb, good | weak, start):
+            msg += " — only a non-strict guard (`count > limit` false / `count <= limit`) protects this site, which admits limit+1"
+    ctx.ob(rule, instance, ok, site.loc(), msg)
+    return ok
+
+
+def arg_of_type(b, ty_pat):
+    """printed name (`#i`) of the unique parameter whose type matches ty_pat (parameter order of private fns is not relied upon)"""
+    hits = [l for l in range(1, b.argc + 1) if re.search(ty_pat, str(b.locals[l]))]
+    if len(hits) != 1:
+        raise mir.RuleError("parameter of %s with type /%s/: %d candidates" % (b.npath, ty_pat, len(hits)))
+    return b.names.get(hits[0], "#%d" % hits[0])
+
+
+def const_val(e):
+    """integer value of a literal or of a named constant operand, else None"""
+    if e[0] == "const" and isinstance(e[1], int):
+        return e[1]
+    if e[0] == "namedconst" and isinstance(e[2], int):
+        return e[2]
+    return None
+
+
+def root_fn(prog, b):
+    """the enclosing function of a closure body (closures count as part of their parent)"""
+    seen = 0
+    while b.parent and seen < 8:
+        p = [x for x in prog.bodies(b.crate) if x.path == b.parent]
+        if not p:
+            break
+        b = p[0]
+        seen += 1
+    return b
+
+
+# ------------------------------------------------------------------------------------------------ record ttl (C42, C44)
+def ge1(cb, e, site_bb, depth=0):
+    """True iff expression e (a u32) is >= 1 on every path to site_bb."""
+    if depth > 8:
+        return False
+    if e[0] == "const" and isinstance(e[1], int):
+        return e[1] >= 1
+    if e[0] == "namedconst" and isinstance(e[2], int):
+        return e[2] >= 1
+    if e[0] == "call":
+        name = strip_generics(e[1])
+        if re.search(r"cmp::Ord::max$|cmp::max$", name):
+            return any(ge1(cb, a, site_bb, depth + 1) for a in e[2])
+        if re.search(r"cmp::Ord::clamp$", name) and len(e[2]) == 3:
+            return ge1(cb, e[2][1], site_bb, depth + 1)
+        if re.search(r"cmp::Ord::min$|cmp::min$", name):
+            return all(ge1(cb, a, site_bb, depth + 1) for a in e[2])
+        if re.search(r"num::NonZero::get$", name):
+            return True
+    if e[0] == "local":
+        ds = cb.defs.get(e[1], [])
+        if ds:
+            return all(ge1(cb, cb.rvalue_expr(d[3]) if d[0] == "stmt" else cb.call_expr(d[3], d[1]), d[1], depth + 1) for d in ds)
+    # guarded by `e > 0` / `e != 0` / `e >= 1`
+    r = render(e)
+    for text, labels, _, cond in cb.guards_on_all_paths(site_bb):
+        m = re.match(r"^(Gt|Ne|Ge|Eq|Lt|Le)\((.*), (\d+)\)$", text)
+        if m and m.group(2) == r:
+            op, k = m.group(1), int(m.group(3))
+            if labels == frozenset(["true"]) and ((op in ("Gt", "Ne") and k == 0) or (op == "Ge" and k >= 1)):
+                return True
+            if labels == frozenset(["false"]) and ((op == "Eq" and k == 0) or (op == "Lt" and k == 1) or (op == "Le" and k == 0)):
+                return True
+    return False
+
+
+def record_ttl_clauses(ctx, prog, rule):
+    """Shared by C42 (lifetimes) and C44 (round trip): a record with an expiry is never encoded as ttl 0 and the decoder maps
+    ttl > 0 to Some(expiry), ttl == 0 to None -- encoder and decoder agree on the *presence* of an expiry."""
+    b = ctx.body(K, r"^libp2p_kad::protocol::record_to_proto$")
+    W = where(b)
+    ags = b.agg_sites(r"proto::dht_pb::Record$")
+    ctx.floor(rule, "proto::Record construction", ags, 1, exact=True)
+    for s in ags:
+        f = dict(b.site_expr(s)[4])
+        t = render(f.get("ttl", ("unknown", "?")))
+        m = re.match(r"^std::option::Option::unwrap_or\(std::option::Option::map\(#1\.expires, closure:[^\[]*\[\]\), 0\)$", t)
+        if not (f.get("ttl", ("?",))[0] == "local"):
+            ctx.ob(rule, "encoded ttl = expires.map(remaining seconds).unwrap_or(0)", m is not None, s.loc(), t[:200])
+        cl = lib.closure_of(prog, b, f["ttl"]) if "ttl" in f else None
+        if cl is None and "ttl" in f and f["ttl"][0] == "local":
+            # `match record.expires { Some(t) => .., None => 0 }` form: every value assigned on a Some path must be >= 1
+            n = 0
+            for d in b.defs.get(f["ttl"][1], []):
+                gs = {g[0]: g[1] for g in b.guards_on_all_paths(d[1])}
+                if gs.get("discr(#1.expires)") == frozenset(["None"]):
+                    continue
+                n += 1
+                e = b.rvalue_expr(d[3]) if d[0] == "stmt" else b.call_expr(d[3], d[1])
+                ok = ge1(b, e, d[1])
+                ctx.ob(rule, "every encoded ttl of a record with an expiry is >= 1", ok, Site(b, d[1], d[2]).loc(), "value %s" % render(e)[:200])
+            ctx.ob(rule, "floor:ttl values on the Some path", n >= 1, s.loc(), nontrivial=False, msg=str(n))
+            continue
+        if cl is None:
+            ctx.ob(rule, "ttl closure found", False, s.loc(), "")
+            continue
+        rs = ret_sites(cl)
+        ctx.floor(rule, "ttl closure results", rs, 1)
+        for x in rs:
+            e = cl.site_expr(x)
+            ok = ge1(cl, e, x.bb)
+            ctx.ob(rule, "every encoded ttl of a record with an expiry is >= 1", ok, x.loc(),
+                   ("value %s is a constant >= 1, max(_, 1), or on a > 0 edge" if ok else "value %s can be 0 (e.g. a remaining lifetime below one second, or a u32 truncation), and 0 means 'does not expire'") % render(e)[:200])
+            leaves = [c for c in mir.calls_in(e, r"Instant as std::ops::Sub>::sub$|Instant::duration_since$|saturating_duration_since$|checked_duration_since$")]
+            if leaves:
+                ctx.ob(rule, "remaining lifetime = expires - now", all(render(c[2][0]) == "#2" and render(c[2][1]) == "web_time::Instant::now()" for c in leaves), x.loc(), str([render(c)[:80] for c in leaves]))
+            adds = [c for c in mir.calls_in(e, r"ops::Add|ops::Mul|checked_add|saturating_add|checked_mul")]
+            ctx.ob(rule, "the encoded lifetime is never lengthened", not adds, x.loc(), str([render(c)[:60] for c in adds]))
+        pv = render(f.get("value", ("unknown", "?")))
+        ctx.ob(rule, "value and key are the record's own", pv == "#1.value" and render(f.get("key", ("unknown", "?"))) in ("libp2p_kad::record::Key::to_vec(#1.key)", "bytes::Bytes::to_vec(#1.key.0)", "<bytes::Bytes as std::convert::Into>::into(#1.key.0)") or (pv == "#1.value" and "#1.key" in render(f.get("key", ("unknown", "?")))), s.loc(), pv)
+    who = sorted({x.npath for x in prog.bodies(K) if x.agg_sites(r"proto::dht_pb::Record$") and "dht_pb" not in x.npath})
+    ctx.ob(rule, "proto::Record is built only by record_to_proto (and the PUT_VALUE acknowledgement)", who in (["libp2p_kad::protocol::record_to_proto"], ["libp2p_kad::protocol::record_to_proto", "libp2p_kad::protocol::resp_msg_to_proto"]), msg=str(who))
+    if "libp2p_kad::protocol::resp_msg_to_proto" in who:
+        rp = ctx.body(K, r"^libp2p_kad::protocol::resp_msg_to_proto$")
+        for s in rp.agg_sites(r"proto::dht_pb::Record$"):
+            ctx.guarded(rule, "the only expiry-less proto::Record is the PUT_VALUE acknowledgement", s, lambda c, r, l: l == "PutValue" and r == "discr(#1)", "KadResponseMsg::PutValue arm")
+        a = prog.adt(K, r"protocol::KadResponseMsg$")
+        flds = [[f["n"] for f in v["fields"]] for v in a["variants"] if v["name"] == "PutValue"]
+        ctx.ob(rule, "the PUT_VALUE acknowledgement carries no expiry to lose (fields key, value)", flds == [["key", "value"]], msg=str(flds))
+        dp = ctx.body(K, r"^libp2p_kad::protocol::proto_to_resp_msg$")
+        ags = [R(dp, s) for s in dp.agg_sites(r"protocol::KadResponseMsg$", "PutValue")]
+        ctx.ob(rule, "the decoder of the acknowledgement ignores ttl", len(ags) == 1 and "ttl" not in ags[0] and "record_from_proto" not in ags[0], where(dp), str(ags)[:240])
+    # decode side
+    d = ctx.body(K, r"^libp2p_kad::protocol::record_from_proto$")
+    recs = d.agg_sites(r"^libp2p_kad::record::Record$")
+    ex = dict(d.site_expr(recs[0])[4]).get("expires") if len(recs) == 1 else None
+    tab = {}
+    if ex is not None and ex[0] == "local":
+        for df in d.defs.get(ex[1], []):
+            if df[0] != "stmt":
+                tab["call"] = "?"
+                continue
+            pos = rel_edges(d, r"^#1\.ttl$", r"^0$", ">") | rel_edges(d, r"^#1\.ttl$", r"^0$", "!=")
+            zero = rel_edges(d, r"^#1\.ttl$", r"^0$", "<=")
+            key = "true" if passes(d, df[1], pos) else ("false" if passes(d, df[1], zero) else None)
+            tab[key] = render(d.rvalue_expr(df[3]))
+    elif ex is not None:
+        tab["?"] = render(ex)
+    ok = tab.get("false") == "std::option::Option::None{}" and (tab.get("true") or "").startswith("std::option::Option::Some{0: <web_time::Instant as std::ops::Add>::add(web_time::Instant::now(), web_time::Duration::from_secs((#1.ttl as u64)))") and len(tab) == 2
+    ctx.ob(rule, "decode: no expiry only for ttl == 0", ok, where(d), str(tab)[:300])
+    ctx.ob(rule, "decode: the record carries the decoded expiry", ex is not None, where(d), "expires field of the constructed Record")
+
+
+# ------------------------------------------------------------------------------------------------ first-hit scans
+def subst_upvars(closure_expr, e):
+    """replace capture references `^i` in a closure-body expression by the captured parent expressions"""
+    ops = closure_expr[2]
+
+    def f(x):
+        if x[0] == "upvar" and x[1].isdigit() and int(x[1]) < len(ops):
+            return ops[int(x[1])]
+        return x
+    return emap(e, f)
+
+
+def first_hit(prog, b):
+    """Recognise "return the first element of RANGE for which PRED holds (wrapped by CTOR), else None", written either as
+    `RANGE.find_map(|e| if PRED(e) { Some(CTOR(e)) } else { None })` or as the explicit loop
+    `for e in RANGE { if PRED(e) { return Some(CTOR(e)) } } None`.
+    Returns dict(form, range, pred, hit_label, hit, miss_ok) with the element printed as `<e>`, or None."""
+    rs = ret_sites(b)
+    # adaptor form
+    if len(rs) == 1:
+        e = b.site_expr(rs[0])
+        if e[0] == "call" and re.search(r"Iterator::find_map$", strip_generics(e[1])) and len(e[2]) == 2 and e[2][1][0] == "closure":
+            cb = prog.closure_body(b, e[2][1][1])
+            sws = [bi for bi in sorted(cb.live) if cb.switch_info(bi)]
+            if len(sws) != 1:
+                return None
+            cond, labs = cb.switch_info(sws[0])
+            el = "#2"
+            pred = render(subst_upvars(e[2][1], cond)).replace(el, "<e>")
+            out = {"form": "find_map", "range": render(e[2][0]), "pred": pred, "vals": {}}
+            for t, ls in labs.items():
+                vals = sorted({render(subst_upvars(e[2][1], cb.site_expr(s))).replace(el, "<e>") for s in ret_sites(cb) if s.bb in cb.reachable([t])})
+                for l in ls:
+                    out["vals"][l] = vals
+            out["exhausted"] = ["std::option::Option::None{}"]      # find_map's own contract
+            return out
+    # loop form
+    its = b.call_sites(r"IntoIterator>?::into_iter$")
+    if len(its) != 1:
+        return None
+    rng = b.site_expr(its[0])[2][0]
+    nx = [s for s in b.call_sites(r"Iterator>?::next$|iter::range::next$") if any(c[3] == its[0].bb for c in mir.calls_in(b.site_expr(s), r"into_iter$"))]
+    if len(nx) != 1:
+        return None
+    head = nx[0].bb
+    some = tg(lib.switch_edges_on_site(b, nx[0], {"Some"}))
+    none = tg(lib.switch_edges_on_site(b, nx[0], {"None"}))
+    if len(some) != 1 or len(none) != 1:
+        return None
+    elem = render(b.site_expr(nx[0])) + "@Some.0"
+    body_blocks = b.reachable(some, stop_nodes=[head])
+    sws = [bi for bi in sorted(body_blocks) if b.switch_info(bi) and bi != head and elem in render(b.switch_info(bi)[0])]
+    if len(sws) != 1:
+        return None
+    cond, labs = b.switch_info(sws[0])
+    out = {"form": "loop", "range": render(rng), "pred": render(cond).replace(elem, "<e>"), "vals": {}}
+    for t, ls in labs.items():
+        r = b.reachable([t], stop_nodes=[head])
+        vals = sorted({render(b.site_expr(s)).replace(elem, "<e>") for s in rs if s.bb in r})
+        if head in r and not vals:
+            vals = ["std::option::Option::None{}"]          # continue with the next element == find_map's None
+        elif head in r:
+            vals = vals + ["<continue>"]
+        for l in ls:
+            out["vals"][l] = vals
+    r = b.reachable(none, stop_nodes=[head])
+    out["exhausted"] = sorted({render(b.site_expr(s)) for s in rs if s.bb in r})
+    return out
+
+
+if __name__ == "__main__":      # python3 -m vrules.lib_kad <crate> <regex>   (canonical view of matching bodies)
+    import sys
+    from . import show as _show
+    _p = KProgram(_facts.ensure_facts(config="default"))
+    if len(sys.argv) > 3:
+        mir.RENDER_MAX[0] = int(sys.argv[3])
+    for _b in _p.find(sys.argv[1], sys.argv[2]):
+        _show.show(_b)
+
